@@ -330,6 +330,22 @@ def float_roundtrip(rng, tier):
                         if not (-pi_ <= float(e[0]) <= pi_ and -pi_ / 2 <= float(e[1]) <= pi_ / 2 and -pi_ <= float(e[2]) <= pi_):
                             fails.append(dict(clause='euler_principal_ranges', signature=sig))
             samples.append(dict(type=g, dtype=str(dtype)))
+    # a BATCH that mixes gimbal-locked items (pitch at +-pi/2) with regular ones: the regular items still round-trip, and every item
+    # equals the conversion of that item alone (the branch selection is per item)
+    for dtype in (torch.float64, torch.float32):
+        eps = torch.finfo(dtype).eps
+        ang = torch.tensor([[0.3, math.pi / 2, 0.5], [0.7, -0.4, 1.1], [-2.0, 1.2, 0.3], [0.1, -math.pi / 2, -0.6], [1.5, 0.2, -2.5], [-0.3, 0.9, 2.8]], dtype=dtype)
+        Xb = pp.euler2SO3(ang)
+        for nm, Z in (('SO3', Xb), ('SE3', pp.SE3(torch.cat([torch.randn(6, 3, dtype=dtype), Xb.tensor()], -1)))):
+            eb = Z.euler(); evals += 1
+            for i in range(6):
+                ei = Z[i].euler()
+                if float((eb[i] - ei).abs().max()) > 64 * eps:
+                    fails.append(dict(clause='euler_batch_is_itemwise', signature=f'{nm}/{str(dtype).split(".")[-1]}', item=i, err=float((eb[i] - ei).abs().max()))); break
+            reg = [1, 2, 4, 5]
+            R2 = pp.euler2SO3(eb[reg]).matrix().double(); R1 = Xb[reg].matrix().double()
+            if float((R2 - R1).abs().max()) > 1e4 * eps:
+                fails.append(dict(clause='euler_roundtrip', signature=f'regular items of a mixed batch/{nm}/{str(dtype).split(".")[-1]}', err=float((R2 - R1).abs().max())))
     uniq = {}
     for f in fails: uniq.setdefault((f['clause'], f['signature']), f)
     return dict(evaluations=evals, distinct_nontrivial=evals, rule='random valid elements over the stated rotation kinds, translations and scales, random input layout; all distinct',
